@@ -49,6 +49,47 @@ pub struct RenderScenario {
     /// also run the fixed F1 probe set (DESIGN.md §7)
     #[serde(default)]
     pub f1_probes: bool,
+    /// > 0: every context additionally holds `deep_v`, an array nested this many levels (built
+    /// at execution time: a replay file cannot carry such a value, JSON parsers stop at 128
+    /// levels), and the world has a template `zz_deep.html` that prints, compares, measures and
+    /// iterates it
+    #[serde(default)]
+    pub deep_value_depth: usize,
+    /// non-empty: the run has a known crash shape (finding F7: printing a context value nested
+    /// ~20 000 levels overflows the stack) and is only ever executed in a sacrificial child
+    #[serde(default)]
+    pub crash_shape: String,
+    #[serde(default)]
+    pub sacrificial: bool,
+    /// > 0: every context additionally holds `s_long` (a few KB of 1- to 4-byte characters, led
+    /// by `big_values % 4` ASCII bytes so that every alignment occurs) and `m_big` (300 non-ASCII
+    /// keys), built at execution time; the targets are expressions that FAIL with the value in
+    /// the message
+    #[serde(default)]
+    pub big_values: usize,
+}
+
+fn big_values(variant: usize) -> (tera::Value, tera::Value) {
+    let mut s = "x".repeat(variant % 4);
+    let unit = "\u{e9}\u{4e2d}\u{1F389}a\u{df}\u{20ac}";
+    while s.len() < 3000 {
+        s.push_str(unit);
+    }
+    let mut m = tera::Map::new();
+    for i in 0..300 {
+        m.insert(tera::value::Key::from(format!("{}cl\u{e9}\u{4e2d}{}", "k".repeat(i % 3), i)), tera::Value::from(i as i64));
+    }
+    (tera::Value::from(s.as_str()), tera::Value::from(m))
+}
+
+pub const DEEP_TEMPLATE: &str = "zz_deep.html";
+
+fn nested_value(depth: usize) -> tera::Value {
+    let mut v = tera::Value::from(1i64);
+    for _ in 0..depth {
+        v = tera::Value::from(vec![v]);
+    }
+    v
 }
 
 pub fn comp_probe_ctx(c: &CompInfo, with_extra: bool) -> SCtx {
@@ -142,7 +183,7 @@ pub fn generate(seed: u64, tier: &str, property: &str) -> RenderScenario {
     } else {
         FaultSpec::Sample { n: 24, seed: rng.next_u64() }
     };
-    RenderScenario {
+    let mut sc = RenderScenario {
         config,
         hash_base: rng.next_u64(),
         templates: world.templates,
@@ -152,7 +193,45 @@ pub fn generate(seed: u64, tier: &str, property: &str) -> RenderScenario {
         transient_seed: rng.next_u64(),
         property: property.to_string(),
         f1_probes: rng.chance(1, 8),
+        deep_value_depth: 0,
+        crash_shape: String::new(),
+        sacrificial: false,
+        big_values: 0,
+    };
+    // deeply nested context data (decided from the seed itself, no draw: everything else about
+    // the scenario is what it would have been). C07's batch only: "with any context".
+    if property == "C07" {
+        let d = sc.config.delims.clone();
+        let deep_src = format!(
+            "{vs} deep_v {ve}|{vs} deep_v == deep_v {ve}|{vs} deep_v | length {ve}|{bs} for x in deep_v {be}{vs} x | length {ve}{bs} endfor {be}|{vs} [deep_v, deep_v] | unique | length {ve}",
+            vs = d.vs, ve = d.ve, bs = d.bs, be = d.be
+        );
+        if seed % 61 == 7 {
+            // hundreds of levels: must render (in-process)
+            sc.deep_value_depth = 40 + ((seed / 61) % 900) as usize;
+            sc.templates.push((DEEP_TEMPLATE.to_string(), deep_src));
+            sc.targets.push(Target::Template { name: DEEP_TEMPLATE.to_string() });
+        } else if seed % 61 == 9 {
+            // long and wide values in failing expressions: the error text embeds them
+            sc.big_values = 1 + ((seed / 61) % 8) as usize;
+            for e in [
+                "s_long | int", "m_big.nokey", "s_long.attr", "m_big | sort(attribute=\"a\")", "1 + s_long", "s_long | truncate(length=\"x\")", "s_long[\"k\"]", "m_big | join(sep=1) | int", "s_long ~ m_big | float",
+                "m_big | get(key=s_long)", "throw(message=s_long)", "s_long is divisible_by(divisor=2)", "[s_long] | sort(attribute=\"z\")", "s_long | nope_attr.x", "range(end=s_long)",
+            ] {
+                let src = format!("{} {} {}", d.vs, d.sanitize_inner(e), d.ve);
+                sc.targets.push(Target::Str { source: src, autoescape: seed % 2 == 0 });
+            }
+        } else if seed % 401 == 11 {
+            // finding F7: ~20 000 levels abort the process; sacrificial child only
+            sc.deep_value_depth = 20_000;
+            sc.crash_shape = "deeply-nested-context-value-printed".to_string();
+            sc.templates = vec![(DEEP_TEMPLATE.to_string(), format!("{} deep_v {}", d.vs, d.ve))];
+            sc.targets = vec![Target::Template { name: DEEP_TEMPLATE.to_string() }];
+            sc.faults = FaultSpec::None;
+            sc.f1_probes = false;
+        }
     }
+    sc
 }
 
 pub struct RefRun {
@@ -304,6 +383,14 @@ pub fn execute(sc: &RenderScenario, stats: &mut Stats) -> Outcome {
     let mut log = Fnv::new();
     // writer/channel/purity invariants belong to C18 whichever check runs this engine
     let prop = "C18";
+    if !sc.crash_shape.is_empty() && !sc.sacrificial {
+        stats.inc("probe_f7_shape_scenario_generated");
+        let mut d = sc.clone();
+        d.sacrificial = true;
+        out.deferred.push(serde_json::to_value(crate::Scn::Render(d)).unwrap());
+        out.fingerprint = crate::rng::fnv1a(sc.crash_shape.as_bytes()) ^ sc.deep_value_depth as u64;
+        return out;
+    }
     ahash::sim::reset(Mode::PerInstance, sc.hash_base);
     if sc.f1_probes {
         out.violations.extend(f1_probes(sc.hash_base, stats));
@@ -326,7 +413,23 @@ pub fn execute(sc: &RenderScenario, stats: &mut Stats) -> Outcome {
         }
         Ok(Ok(())) => {}
     }
-    let ctxs: Vec<Context> = sc.contexts.iter().map(|c| c.to_context()).collect();
+    let mut ctxs: Vec<Context> = sc.contexts.iter().map(|c| c.to_context()).collect();
+    if sc.deep_value_depth > 0 {
+        stats.inc("probe_deeply_nested_context_value");
+        stats.maxi("deepest_context_value", sc.deep_value_depth as u64);
+        let v = nested_value(sc.deep_value_depth);
+        for c in ctxs.iter_mut() {
+            c.insert_value("deep_v", v.clone());
+        }
+    }
+    if sc.big_values > 0 {
+        stats.inc("probe_big_context_values_in_failing_expressions");
+        let (sv, mv) = big_values(sc.big_values);
+        for c in ctxs.iter_mut() {
+            c.insert_value("s_long", sv.clone());
+            c.insert_value("m_big", mv.clone());
+        }
+    }
     let ctx_copies = ctxs.clone();
     let engine_before = format!("{:?}", t);
     let mut rot = 0usize;
@@ -685,7 +788,20 @@ pub fn execute(sc: &RenderScenario, stats: &mut Stats) -> Outcome {
         ahash::sim::reset(Mode::PerInstance, sc.hash_base ^ 0x6C0B_A1C0_6C0B_A1C0);
         let mut t3 = new_tera(&cfg2);
         if let Ok(Ok(())) = catch(|| t3.add_raw_templates(sc.templates.iter().map(|(n, s)| (n.as_str(), s.as_str())))) {
-            let fresh_ctxs: Vec<Context> = sc.contexts.iter().map(|c| c.to_context()).collect();
+            let mut fresh_ctxs: Vec<Context> = sc.contexts.iter().map(|c| c.to_context()).collect();
+            if sc.deep_value_depth > 0 {
+                let v = nested_value(sc.deep_value_depth);
+                for c in fresh_ctxs.iter_mut() {
+                    c.insert_value("deep_v", v.clone());
+                }
+            }
+            if sc.big_values > 0 {
+                let (sv, mv) = big_values(sc.big_values);
+                for c in fresh_ctxs.iter_mut() {
+                    c.insert_value("s_long", sv.clone());
+                    c.insert_value("m_big", mv.clone());
+                }
+            }
             for (ti, ci, _, _) in firsts.iter() {
                 let mut wa = SimWriter::new(WPlan::perfect());
                 let mut wb = SimWriter::new(WPlan::perfect());
